@@ -136,11 +136,15 @@ end CV.Props.C13
 namespace CV.Props.C13
 
 /-- (facts, regenerated from the source on every run) **The source text the model transcribes is the text of the
-    current source**: the bodies (comments and layout removed) of the 12 functions the model behind C13 was written from and
+    current source**: the bodies (comments and layout removed) of the 16 functions the model behind C13 was written from and
     validated against.  Any edit of one of them breaks this theorem at build time; the check then searches with the
     property's own oracles for a failing input, and reports `no-failing-input-found` if it finds none: the model then
     has to be re-validated against the new text (and this block regenerated). -/
 theorem source_decision_logic : CV.Facts.logicC13 = [
+  "clover..getCollectionKey: { return getCollectionKeyPrefix() + name }", 
+  "clover..getCollectionKeyPrefix: { return \"coll:\" }", 
+  "clover..getDocumentKey: { return getDocumentKeyPrefix(collection) + id }", 
+  "clover..getDocumentKeyPrefix: { return \"c:\" + collection + \";\" + \"d:\" }", 
   "clover..iteratePrefix: { cursor, err := tx.Cursor(true) if err != nil { return err } defer cursor.Close() if err := cursor.Seek(prefix); err != nil { return err } for ; cursor.Valid(); cursor.Next() { item, err := cursor.Item() if err != nil { return err } if !bytes.HasPrefix(item.Key, prefix) { return nil } err = itemConsumer(item) if errors.Is(err, internal.ErrStopIteration) { return nil } if err != nil { return err } } return nil }", 
   "clover.DB.CreateCollection: { tx, err := db.store.Begin(true) if err != nil { return err } defer tx.Rollback() if err := db.createCollection(tx, name); err != nil { return err } return tx.Commit() }", 
   "clover.DB.CreateCollectionByQuery: { q, err := normalizeCriteria(q) if err != nil { return err } return db.createCollectionWith(name, func(tx store.Tx) ([]*d.Document, error) { docs := make([]*d.Document, 0) err := db.iterateDocs(tx, q, func(doc *d.Document) error { docs = append(docs, doc) return nil }) return docs, err }) }", 
